@@ -400,6 +400,8 @@ def run_ks(r, case, flow, g, label, det):
 
             def logb(z):
                 with torch.no_grad():
+                    if not flow._context_used_in_base:      # a base whose methods take no context argument
+                        return base.log_prob(z)
                     return base.log_prob(z, emb.expand(z.shape[0], -1) if emb is not None else None)
             try:
                 bc, bs = q.placement(noise.reshape(-1))
